@@ -11,7 +11,7 @@ T = {
          "Trusts the kernel's loopback of local multicast on eth0, per-sender ordering on loopback, and the membership model of Linux source filters (operations that trigger the kernel's mode switch on an empty source list are not generated); known finding loop-getter-initial is probed and excluded.",
          "model-based and round-trip property-based testing over real UDP/multicast sockets (rapid)", "DESIGN.md §4 C12"),
  "C13": ("fault_enumeration",
-         "Fault enumeration plus property testing: (a) for every constructor the k-th descriptor allocation is made to fail with EMFILE for every k below what success needs (descriptor table filled, k slots freed), plus refused/conflicting/unroutable/failing-option/bad-response faults, each followed by a /proc/self/fd census comparison - the table is enumerated completely; (b) rapid-generated histories of repeated Close interleaved with creation of other objects check that only owned descriptors are ever closed (census + inode identity of every other live object); (c) rapid-generated garbage-collection points while reads and/or writes are deferred and the program holds no reference (finalizer sentinels captured by the callbacks).",
+         "Fault enumeration plus property testing: (a) for every constructor the k-th descriptor allocation is made to fail with EMFILE for every k below what success needs (descriptor table filled, k slots freed), plus refused/conflicting/unroutable/failing-option/bad-response faults, each followed by a /proc/self/fd census comparison - the table is enumerated completely; (b) rapid-generated histories of repeated Close interleaved with creation of other objects check that only owned descriptors are ever closed (census + inode identity of every other live object); (c) rapid-generated garbage-collection points while reads and/or writes are deferred and the program holds no reference (finalizer sentinels captured by the callbacks); (d) websocket sessions on one Stream ended with CloseNextLayer and restarted from inside or after the cancelled callbacks: the ended session's socket must be gone, the next one's open and usable.",
          "Trusts /proc/self/fd, fstat inode identity and Go finalizers after forced double collection; websocket handshakes are explored with EMFILE at k=0 only (an in-process server competes for freed slots otherwise); GC points are sampled at operation boundaries.",
          "fault enumeration (EMFILE at the k-th allocation, protocol faults) + stateful property-based testing (rapid)", "DESIGN.md §4 C13"),
  "C17": ("exploration",
@@ -23,7 +23,7 @@ T = {
          "Trusts the harness server and independent accept-key computation; segments are separated by 3 ms pauses (a pause that fails to separate them only weakens the case).",
          "metamorphic property-based testing against a scripted server (rapid)", "DESIGN.md §4 C18"),
  "C05": ("exploration",
-         "Property testing (rapid-generated plans) of concurrent Post under the race detector: N poster goroutines with generated yield points and nesting (Post from posted handlers, from goroutines spawned by handlers) against a loop goroutine locked to its OS thread running a generated poll/run/arm/cancel script; exactly-once, loop-thread execution (gettid), per-poster order, wake-up of a blocked RunOne, deadlock watchdog, Pending()/Posted() at quiescence, and no data-race report in a -race build. The OS scheduler picks the interleavings: the data-race half is timing-independent, the rest statistical.",
+         "Property testing (rapid-generated plans) of concurrent Post under the race detector: N poster goroutines with generated yield points and nesting (Post from posted handlers, from goroutines spawned by handlers) against a loop goroutine locked to its OS thread running a generated poll/run/arm/cancel script; exactly-once, loop-thread execution (gettid), per-poster order, wake-up of a blocked RunOne, deadlock watchdog, Pending()/Posted() at quiescence, and no data-race report in a -race build; a sequential companion test queues bursts of up to 60000 handlers before the loop is polled and then posts from inside handlers (exactly once, order, reproducible from the drawn numbers). The OS scheduler picks the interleavings: the data-race half is timing-independent, the rest statistical.",
          "Trusts the Go race detector (built with -gcflags=all=-d=checkptr=0 because checkptr aborts on the poller's unaligned slot pointer), gettid for thread identity and the 10 s watchdog (normal case < 100 ms).",
          "property-based concurrency testing under the race detector (rapid + -race)", "DESIGN.md §4 C05"),
  "C01": ("exploration",
@@ -31,7 +31,7 @@ T = {
          "Trusts poll(2) on RawFd() as the readiness oracle and the harness's raw peers; one read and one write in flight per object; AsyncAdapter writes limited to what fits the socket buffer.",
          "stateful property-based testing with harness-controlled poll batches (rapid)", "DESIGN.md §4 C01"),
  "C02": ("exploration",
-         "Property testing (rapid) of stream pairs with position-dependent bytes in both directions: generated read/write sizes and peer chunk sizes force partial transfers and would-block in the middle of *All operations; every completion's bytes, counts and the peer's received stream are checked against the generator stream. Bounded search.",
+         "Property testing (rapid) of stream pairs with position-dependent bytes in both directions: generated read/write sizes and peer chunk sizes force partial transfers and would-block in the middle of *All operations; every completion's bytes, counts and the peer's received stream are checked against the generator stream; one test lets a peer goroutine write tiny segments concurrently so that a ReadAll never meets would-block. Bounded search.",
          "Trusts the position-dependent byte generator and the raw peer sockets; AsyncAdapter writes limited to what fits the socket buffer (net.Conn.Write blocks otherwise).",
          "round-trip property-based testing over real sockets (rapid)", "DESIGN.md §4 C02"),
  "C03": ("exploration",
@@ -39,11 +39,11 @@ T = {
          "Trusts the shadow ledger (ops whose callback has not run, armed timers, posted handlers) and the 10 s watchdog (normal case < 50 ms); Post from inside posted handlers is left to C05.",
          "stateful property-based testing against a shadow ledger + signal injection (rapid)", "DESIGN.md §4 C03"),
  "C04": ("exploration",
-         "Model-based property testing (rapid) with real timerfds: generated schedules/cancels/closes from top level and from handlers of other timers and of a socket in the same poll batch; per-schedule ids decide which callbacks may run; one-sided timing oracle (elapsed >= delay - 50us, monotonic clock) and count-bounded liveness after sleeping past the deadlines. Bounded search in real time (1..15 ms delays).",
+         "Model-based property testing (rapid) with real timerfds: generated schedules/cancels/closes from top level and from handlers of other timers and of a socket in the same poll batch; per-schedule ids decide which callbacks may run; one-sided timing oracle (elapsed >= delay - 50us, monotonic clock) and count-bounded liveness after sleeping past the deadlines; a second test blocks the loop in the poller across deadlines of 100..6000 us (fractional milliseconds) so that 'never early' is observed at the moment of expiry. Bounded search in real time (1..15 ms delays).",
          "Real time cannot be virtualised without rewriting the code under test: tolerance 50 us, liveness margin 5 ms; load only lengthens sleeps (safe direction).",
          "stateful property-based testing with a per-schedule reference model (rapid)", "DESIGN.md §4 C04"),
  "C14": ("exploration",
-         "Property testing (rapid): generated chains (up to 200 links) of immediately completable operations over a mix of object kinds, each link issued from the previous completion; harness nesting counter, per-link results by construction, IO.Dispatched at rest and a PollOne budget are checked. Bounded search.",
+         "Property testing (rapid): generated chains (up to 200 links) of immediately completable operations over a mix of object kinds, each link issued from the previous completion; harness nesting counter, per-link results by construction, IO.Dispatched at rest and a PollOne budget are checked; operations that must wait are started, and pending operations of other objects cancelled, from inside a chain at a generated depth. Bounded search.",
          "Everything a link needs is buffered in the kernel beforehand; known finding regular-file-deferred is excluded by construction (counted) and probed separately.",
          "property-based testing of generated operation chains (rapid)", "DESIGN.md §4 C14"),
  "C06": ("exploration",
@@ -63,7 +63,7 @@ T = {
          "Trusts the session generator shared with C06 and the independent parser; fragmentation-rule and message-size mutations are judged on the message APIs only, as the property states.",
          "property-based testing with single-fault mutation of conforming inputs (rapid)", "DESIGN.md §4 C15"),
  "C16": ("exploration",
-         "Property testing (rapid): generated write histories (all APIs, length classes, caller-built frames with/without payload, auto Pong/Close, pooled-frame reuse, inline/parked transport completions); the complete captured byte stream must parse with an independent parser into exactly the submitted frames. Bounded search.",
+         "Property testing (rapid): generated write histories (all APIs, length classes, caller-built frames with/without payload, auto Pong/Close, pooled-frame reuse, inline/parked transport completions); the complete captured byte stream must parse with an independent parser into exactly the submitted frames; on a real connection, the wire of a session that follows failed or abandoned writes and a re-handshake of the same Stream must carry only that session's frames. Bounded search.",
          "Trusts the independent parser; the history test keeps one application write in flight, the burst test issues up to nine without waiting and releases transport completions one at a time; scripted transport is all-or-error like the real adapter; GOMAXPROCS=1 makes sync.Pool reuse deterministic.",
          "property-based testing with an independent parser as oracle (rapid)", "DESIGN.md §4 C16"),
  "C19": ("exploration",
